@@ -197,7 +197,8 @@ class Check:
                         reproduced, witness, cls = replay(v.model or {}, v.name)
                     except Exception:  # noqa: BLE001
                         self.crashes.append(f"replay of {v.name} crashed: {traceback.format_exc()}")
-                self.failures.append(Failure(v.name, "refuted", f"counter-model from {v.solver}", witness, cls,
+                extra = {k: x for k, x in (v.meta or {}).items() if k not in ("group", "schema_instances", "truncated")}
+                self.failures.append(Failure(v.name, "refuted", f"counter-model from {v.solver} {extra if extra else ''}", witness, cls,
                                              reproduced, solver_output=json.dumps(v.model, default=str)[:2000]))
             elif v.status == "unknown":
                 # an undischarged obligation is *undecided*, unless the sidecar's bounded
